@@ -599,6 +599,11 @@ class Eval:
                 return ("ctor", name, ())
             if r.get("r") == "def":
                 if r.get("kind", "").startswith(("Const", "Static", "AssocConst")):
+                    # a constant introduced after the rules were written that names a literal is that literal (`const GENERAL: &str = "general"`)
+                    cb = self.facts.bodies.get(r["path"], ())
+                    if r.get("kind", "").startswith("Const") and len(cb) == 1 and r["path"] not in known_functions() and isinstance(cb[0].get("body"), dict) \
+                            and strip(cb[0]["body"]).get("k") == "Lit":
+                        return ("lit", strip(cb[0]["body"]).get("v"))
                     return ("const", hq.last(r["path"]))
                 return ("fn", short(e.get("callee_res") or e.get("callee") or r["path"]))
             return ("unknown", "path")
@@ -938,6 +943,8 @@ class Eval:
             return subst(f[2], dict(zip(f[1], args)))
         if f[0] == "closure":
             return ("apply", f, tuple(args))
+        if f[0] == "fn" and len(f) == 2 and isinstance(f[1], str):
+            return ("call", f[1], tuple(args))      # a function passed by name and called: the call itself
         return ("callv", f, tuple(args))
 
     def named_call(self, e, generic, resolved, args, depth):
